@@ -211,8 +211,15 @@ where
                 // makes sure optimistic block production yields before timeout would expire
                 duration_left.min(self.delta_block)
             };
-            let produce_slice_future =
-                produce_slice_payload(&self.txs_receiver, parent, time_for_slice);
+            // NOTE: While ParentReady is still pending, it may attach a different parent to this slice,
+            // so the space for it has to be reserved even though the slice starts out without one.
+            let may_switch_parent = !parent_ready_receiver.is_terminated();
+            let produce_slice_future = produce_slice_payload_reserving(
+                &self.txs_receiver,
+                parent,
+                may_switch_parent,
+                time_for_slice,
+            );
 
             // If we have not yet received the ParentReady event, wait for it concurrently while producing the next slice.
             let (mut payload, new_duration_left) = if parent_ready_receiver.is_terminated() {
@@ -447,6 +454,20 @@ async fn produce_slice_payload<T>(
 where
     T: TransactionNetwork,
 {
+    produce_slice_payload_reserving(txs_receiver, parent, false, duration_left).await
+}
+
+/// Like [`produce_slice_payload`], but if `may_switch_parent` is set, leaves room for
+/// a parent to be attached to the payload afterwards (see [`apply_parent_ready`]).
+async fn produce_slice_payload_reserving<T>(
+    txs_receiver: &T,
+    parent: Option<BlockId>,
+    may_switch_parent: bool,
+    duration_left: Duration,
+) -> (SlicePayload, Duration)
+where
+    T: TransactionNetwork,
+{
     let start_time = Instant::now();
 
     // each slice should be able hold at least 1 transaction
@@ -458,6 +479,15 @@ where
     let parent_encoded_len = wincode::serialized_size(&parent)
         .expect("computing serialized size of parent should not fail")
         as usize;
+    let parent_encoded_len = if may_switch_parent {
+        let some_parent = Some((Slot::genesis(), GENESIS_BLOCK_HASH));
+        let reserved = wincode::serialized_size(&some_parent)
+            .expect("computing serialized size of parent should not fail")
+            as usize;
+        parent_encoded_len.max(reserved)
+    } else {
+        parent_encoded_len
+    };
     let buffer_space = MAX_DATA_PER_SLICE - parent_encoded_len - 8;
     let mut buffer = Vec::<u8>::with_capacity(buffer_space);
     let mut tx_count = 0u64;
